@@ -12,7 +12,7 @@ CLAIMED = {
          "Fault positions are byte offsets of the inbound stream / write-call indices of the outbound stream owned by the mock transport; what the client threads were doing at that instant is sampled by OS scheduling. A fault that never became visible is a trivial case. Hangs need confirmation by replay.",
          "DESIGN.md 4/C05"),
  "C17": ("real-clock property testing: generated heartbeat options and traffic patterns, all cases of a run executed concurrently; oracle = timing bounds on client writes and on the moment of death",
-         "Exploration on the wall clock: gap between client writes <= h + 0.9 s, a fed connection is never declared dead, silence is fatal not before 2h - 0.05 s and not after 2h + 0.9 s, h = 0 disables everything.",
+         "Exploration on the wall clock: gap between client writes <= h + 0.9 s, a fed connection is never declared dead, silence is fatal not before 2h - 0.05 s and not after 2h + 0.9 s - also when the client calls Connection::close at the moment the server falls silent -, h = 0 disables everything.",
          "Whole-second protocol granularity limits h to {1, 2, 3}. Lateness breaches must recur on every re-execution before they are reported (CPU contention can delay but not hasten); lower-bound breaches are reported at once. No virtual time: the timer wheel lives in mio-extras.",
          "DESIGN.md 4/C17"),
  "C18": ("property-based testing with a budget-scripted transport: generated tuning x publishers x stall / trickle / release script; oracle = tuning-derived buffering bound, blocked-publisher and resume observations, exactly-once in-order wire content",
@@ -52,8 +52,8 @@ CLAIMED = {
          "Trusts amq-protocol's codec for generating server frames, OS scheduling of the per-channel client threads (sampled, not enumerated). Bodies <= 12 KB end to end, <= 20 KB in the probe.",
          "DESIGN.md 4/C03"),
  "C06": ("property-based testing of FrameBuffer through a cfg(amiquip_verif) re-export: generated frame streams x two generated cut scripts; oracle = independent envelope split + promptness + metamorphic equality; plus generated whole sessions whose read boundary falls around the handshake/steady-state hand-over",
-         "Exploration: streams of real frames of every kind (plus malformed / EOF / I/O-error tails) are fed under arbitrary read segmentations; frames handed over, their timing (promptness per read_from call), byte counts and the terminal error must equal the reference, and two segmentations of one stream must agree. A second part runs whole sessions in which server frames follow OpenOk with the read boundary anywhere inside them: the session must open, work and close (or report the server's close, answered exactly once) wherever the cut falls.",
-         "Hook: amiquip::verif::FrameBuffer (re-export). Frames <= 20 KB. The client's reaction to segmentations in the steady state is exercised by C03's segmentations.",
+         "Exploration: streams of real frames of every kind (plus malformed / EOF / I/O-error tails) are fed under arbitrary read segmentations; frames handed over, their timing (promptness per read_from call), byte counts and the terminal error must equal the reference, and two segmentations of one stream must agree; a read_from call may return Ok only once the transport has answered would-block (the I/O loop calls it once per readiness edge; an early return is reported only after a live session on the mock transport has shown frames or the stream's end to be late there too). A part `burst` applies the same oracle to streams of up to 400 KiB and several thousand frames read mostly without would-block. A further part runs whole sessions in which server frames follow OpenOk with the read boundary anywhere inside them: the session must open, work and close (or report the server's close, answered exactly once) wherever the cut falls.",
+         "Hook: amiquip::verif::FrameBuffer (re-export). Frames <= 20 KB, streams <= 400 KiB. The client's reaction to segmentations in the steady state is exercised by C03's segmentations.",
          "DESIGN.md 4/C06"),
  "C07": ("property-based testing with a reference reader: generated sequences over an alphabet of server frames (one production per dispatch arm) played to the real client; model-based probe of the collector incl. extreme announced sizes; a batch part that makes a protocol violation and client requests arrive in one wake-up of the I/O thread; process aborts caught by subprocess + journal replay",
          "Exploration: safety (no panic, no abort, observed messages are a prefix of the compliant reading, every call returns) on every sequence, and exact error / hard-error code classification whenever the first irregularity is one the property names.",
@@ -85,7 +85,7 @@ CLAIMED = {
          "DESIGN.md 4/C02"),
  "C14": ("model-based property testing (bounded-exhaustive enumeration for n<=4/5 tags + proptest random histories) against a reference smoother model",
          "Exploration, exhaustive for small n: every complete history of up to 4 (quick) / 5 (thorough) tags is enumerated, larger ones sampled; each output must equal the reference model's emission, including under early iterator drops; arbitrary duplicate/stale histories get the safety oracle.",
-         "Public API only (no hook). Start tags are kept below 2^64-1000 so all tags are representable.",
+         "Public API only (no hook); smoothers for histories starting at 1 are built by new(), default() or with_expected_delivery_tag(1) in turn. Start tags are kept below 2^64-1000 so all tags are representable.",
          "DESIGN.md 4/C14"),
 }
 
